@@ -1,12 +1,17 @@
 import OsacaVerif.Model.ParseX86
+import OsacaVerif.Model.ParseA64
 import OsacaVerif.Model.Marker
 import OsacaVerif.Model.Isa
 import OsacaVerif.Model.Compose
 import OsacaVerif.Model.Pipeline
 /-
-  Glue between the stage models (x86): the conversions from what the parser model produces
-  (`X86.Form`, `X86.Operand`; Model/ParseX86.lean) to what the later stage models consume.
-  Written ONCE here; `Model/EndToEnd.lean` only composes.
+  Glue between the stage models: the conversions from what the parser models produce
+  (x86: `X86.Form`, `X86.Operand`, Model/ParseX86.lean; AArch64: `ParseA64.Line`, `ParseA64.Operand`,
+  Model/ParseA64.lean + Model/A64Types.lean) to what the later stage models consume.
+  Written ONCE here; `Model/EndToEnd.lean` only composes.  Both parsers end in the same record
+  `Glue.Form` (`formX86`, `formA64`): mnemonic, comment, directive, the operands as kernel selection
+  sees them (`Marker.Opd`) and as the role / lookup / composition stages see them (`Isa.Opnd`).
+  The AArch64 half is at the end of the file.
 
       X86.Operand ──poperandOf──► Operand.POperand      matcher's view              (Model/Match, C07)
       X86.Operand ──opndOf─────► Isa.Opnd               roles / register changes    (Model/Isa, C03Roles)
@@ -116,6 +121,28 @@ def selOf (num : Nat) (f : X86.Form) : Marker.Line :=
     dir := f.directive.map fun d => { name := d.1, params := d.2.map some },
     ops := f.operands.map opdOf }
 
+/-! ### the parsed line, whichever parser produced it -/
+
+/-- what the stages behind the parser read of an `InstructionForm` -/
+structure Form where
+  mnemonic : Option Txt := none
+  comment : Option Txt := none
+  dir : Option Marker.Dir := none
+  /-- the operands as `find_marked_section` sees them -/
+  selOps : List Marker.Opd := []
+  /-- `instruction_form.operands` as `assign_src_dst` / `assign_tp_lt` / `get_reg_changes` see them -/
+  operands : List Isa.Opnd := []
+  deriving DecidableEq, Repr
+
+/-- the view of kernel selection -/
+def Form.sel (num : Nat) (f : Form) : Marker.Line :=
+  { num := num, mnem := f.mnemonic, comment := f.comment, dir := f.dir, ops := f.selOps }
+
+def formX86 (f : X86.Form) : Form :=
+  { mnemonic := f.mnemonic, comment := f.comment,
+    dir := f.directive.map fun d => { name := d.1, params := d.2.map some },
+    selOps := f.operands.map opdOf, operands := opndsOf f.operands }
+
 /-! ### `semantic_operands` as `assign_tp_lt` reads them -/
 
 def semOpP : Isa.SemOp → POperand
@@ -149,5 +176,154 @@ def usedMask (ports : List Txt) (uops : Option (List Y)) : List Bool :=
 /-- `instruction_form.flags` after `assign_src_dst` and `assign_tp_lt` (as a set) -/
 def flagsOf (r : Isa.Result) (t : Compose.Result) : List Txt :=
   (if r.hasLd then [Gen.flagHasLd] else []) ++ (if r.hasSt && !t.removedSt then [Gen.flagHasSt] else []) ++ t.flags
+
+/-! ## AArch64
+
+      ParseA64.Operand ──poperandA64──► Operand.POperand   `RegisterOperand(prefix, name, shape, lanes)`,
+                                                          `ImmediateOperand(imd_type, value)`, `IdentifierOperand`,
+                                                          `ConditionOperand(ccode)`, `PrefetchOperand`,
+                                                          `MemoryOperand(offset, base, index, scale, pre_indexed, post_indexed)`
+      ParseA64.Operand ──opndA64──────► Isa.Opnd           + identity key, immediate value, offset value, post-index value
+      ParseA64.Operand ──opdA64───────► Marker.Opd         `normalize_imd`, `get_full_reg_name`
+      ParseA64.Line    ──formA64──────► Glue.Form
+
+  A register list / range has already been expanded into its members by the parser model (`processOperand`
+  returns a list), exactly as `process_operand` → `resolve_range_list` does.
+
+  Parser outputs OUTSIDE the domain in which the conversion is faithful to the Python objects (see
+  notes/EndToEnd.md, "AArch64"):
+    * a shifted immediate `#1, lsl #12`: the parser model keeps the value `1 << 12`, the Python object also has
+      `_shift` (in `__eq__`): its key coincides with the key of the plain immediate `#4096`;
+    * the members of a register list with an element index `{v0.s, v1.s}[1]` carry the index as an `int`
+      in Python, a plain `v0.s[1]` as a `str`: equal keys here, unequal objects there;
+    * floating-point immediates: `normalize_imd` turns them into Python floats (an integral float `#111.0`
+      would compare equal to the marker value `111`); here `Marker.Opd.imm none`.  `get_reg_changes` on an
+      entry with an operation and a float immediate is answered `unsupported` (`Isa.Val.other`);
+    * a memory operand whose offset is an identifier (`[x1, :lo12:sym]`, `[x1, lab1]`) or was left as the
+      grammar's dictionary (float offset, shifted-immediate offset), or whose post-index is not a plain
+      number: `IdentifierOperand` has no `__eq__` (two such operands of different instructions are never
+      equal in Python), the key here is structural.  Only `is_memstore` compares memory operands of
+      different instructions;
+    * a directive parameter that is not a string (an identifier parsed as a nested group; `?` in the parser
+      model): `none` here, as in `Marker.Dir`.
+-/
+
+def optPfx (t : Txt) : Option Txt := if t.isEmpty then none else some t
+
+/-- `RegisterOperand(prefix=…lower(), name, shape=…lower(), lanes, index, predication)` as the matcher reads it -/
+def pregA64 (r : ParseA64.Reg) : PReg :=
+  { name := r.name, pfx := optPfx r.pre, shape := r.shape, lanes := r.lanes }
+
+/-- `RegisterOperand(name=…, prefix=…)` of a memory base / index -/
+def pregAddr (pre name : Txt) : PReg := { name := name, pfx := optPfx pre }
+
+def poffA64 : Option ParseA64.MemOff → POff
+  | none => .none
+  | some (.imm _) => .imm false       -- `ImmediateOperand(value=int(…, 0))`: an `int`, never the string "0"
+  | some (.ident _) => .ident
+  | some .other => .other             -- the grammar's dictionary left in place
+
+def immTypeInt : Txt := [105, 110, 116]                       -- "int"
+def immTypeFloat : Txt := [102, 108, 111, 97, 116]            -- "float"
+def immTypeDouble : Txt := [100, 111, 117, 98, 108, 101]      -- "double"
+
+def pmemA64 (m : ParseA64.Mem) : PMem :=
+  { base := some (pregAddr m.basePre m.baseName), offset := poffA64 m.offset,
+    index := m.index.map fun i => pregAddr i.pre i.name, scale := (m.scale : Int),
+    pre := m.pre, post := m.post.isSome }
+
+def poperandA64 : ParseA64.Operand → POperand
+  | .reg r => .reg (pregA64 r)
+  | .imm (.int _) => .imm (some immTypeInt) true false
+  | .imm (.flt dbl _ _) => .imm (some (if dbl then immTypeDouble else immTypeFloat)) true false
+  | .ident _ => .ident
+  | .cond cc => .cond cc
+  | .prf _ _ _ => .prfop
+  | .mem m => .mem (pmemA64 m)
+
+/-! identity under `==` -/
+
+def encIdent (i : ParseA64.Ident) : Txt := encOptTxt i.reloc ++ encTxt i.name ++ encOptTxt i.offset
+
+def encOffA64 : Option ParseA64.MemOff → Txt
+  | none => [0]
+  | some (.imm v) => 1 :: encInt v
+  | some (.ident i) => 2 :: encIdent i
+  | some .other => [3]
+
+def encIdxA64 : Option ParseA64.MemIdx → Txt
+  | none => [0]
+  | some i => 1 :: (encTxt i.pre ++ encTxt i.name)      -- `RegisterOperand.__eq__` does not read `shift` / `shift_op`
+
+def encPostA64 : Option ParseA64.PostIdx → Txt
+  | none => [0]
+  | some (.imm v) => 1 :: encInt v
+  | some .other => [2]
+
+def encExp : Option (Txt × Txt) → Txt
+  | none => [0]
+  | some (s, e) => 1 :: (encTxt s ++ encTxt e)
+
+/-- key of the operand at position `pos`: `RegisterOperand.__eq__` (name, prefix, lanes, shape, index — not the
+    predication), `ImmediateOperand.__eq__` (type, value), `MemoryOperand.__eq__` (offset, base, index, scale,
+    pre_indexed, post_indexed); `IdentifierOperand`, `ConditionOperand`, `PrefetchOperand` have no `__eq__` -/
+def keyA64 (pos : Nat) : ParseA64.Operand → Txt
+  | .reg r => 0 :: (encTxt r.pre ++ encTxt r.name ++ encOptTxt r.shape ++ encOptTxt r.lanes ++ encOptTxt r.index)
+  | .imm (.int v) => 1 :: 0 :: encInt v
+  | .imm (.flt dbl m e) => 1 :: 1 :: (if dbl then 1 else 0) :: (encTxt m ++ encExp e)
+  | .ident _ => [2, pos]
+  | .mem m =>
+    3 :: (encOffA64 m.offset ++ encTxt m.basePre ++ encTxt m.baseName ++ encIdxA64 m.index ++
+          [m.scale, if m.pre then 1 else 0] ++ encPostA64 m.post)
+  | .cond _ => [4, pos]
+  | .prf _ _ _ => [5, pos]
+
+def moffA64 : Option ParseA64.MemOff → Isa.MOff
+  | none => .absent
+  | some (.imm v) => .imm (.int v)
+  | some (.ident _) => .obj
+  | some .other => .obj
+
+def postValA64 : Option ParseA64.PostIdx → Isa.Val
+  | none => .none
+  | some (.imm v) => .int v
+  | some .other => .other            -- `post_indexed` is the grammar's dictionary: no integer `"value"`
+
+def opndA64 (pos : Nat) (o : ParseA64.Operand) : Isa.Opnd :=
+  { p := poperandA64 o
+    key := keyA64 pos o
+    val := match o with | .imm (.int v) => .int v | .imm (.flt _ _ _) => .other | _ => .none
+    off := match o with | .mem m => moffA64 m.offset | _ => .absent
+    postVal := match o with | .mem m => postValA64 m.post | _ => .none }
+
+def opndsFromA64 : Nat → List ParseA64.Operand → List Isa.Opnd
+  | _, [] => []
+  | i, o :: os => opndA64 i o :: opndsFromA64 (i + 1) os
+
+/-- `instruction_form.operands` (register lists already expanded) -/
+def opndsA64 (ops : List ParseA64.Operand) : List Isa.Opnd := opndsFromA64 0 ops
+
+/-- `ParserAArch64.get_full_reg_name` -/
+def fullRegNameA64 (r : ParseA64.Reg) : Txt :=
+  r.pre ++ r.name ++
+  (match r.shape with | some s => 46 :: (r.lanes.getD [] ++ s) | none => []) ++
+  (match r.index with | some i => 91 :: (i ++ [93]) | none => [])
+
+/-- `ImmediateOperand` ↦ `normalize_imd` (an `int`; floats: see the head of this section),
+    `RegisterOperand` ↦ `get_full_reg_name` -/
+def opdA64 : ParseA64.Operand → Marker.Opd
+  | .reg r => .reg (fullRegNameA64 r)
+  | .imm (.int v) => .imm (some v)
+  | .imm (.flt _ _ _) => .imm none
+  | _ => .other
+
+/-- a directive parameter the grammar left as a nested group is `?` in the parser model -/
+def dirParamA64 (p : Txt) : Option Txt := if p == [63] then none else some p
+
+def formA64 : ParseA64.Line → Form
+  | .comment c => { comment := some c }
+  | .label _ c => { comment := c }
+  | .directive n ps c => { comment := c, dir := some { name := n, params := ps.map dirParamA64 } }
+  | .instr mn ops c => { mnemonic := some mn, comment := c, selOps := ops.map opdA64, operands := opndsA64 ops }
 
 end OsacaVerif.Glue
